@@ -721,6 +721,9 @@ class Lib:
     def dict_get(self, I, d, key, raise_missing=False, default=None):
         # concrete dict with possibly symbolic keys
         for k, v in d.items():
+            if k is key or (isinstance(k, SV) and isinstance(key, SV) and k.typ == key.typ and z3.eq(k.t, key.t)):
+                return v
+        for k, v in d.items():
             eq = I.truth(I.equal(k, key)) if not (isinstance(k, (str, int)) and isinstance(key, (str, int))) else (k == key)
             if isinstance(eq, bool):
                 if eq:
